@@ -88,23 +88,23 @@ def iter_ops(r="v0"):
         for steps in ([], ["next it"], ["next_back it"], ["next it", "next_back it", "next it", "next it", "next_back it"],
                       ["next_back it", "next_back it", "next_back it", "next it"], ["nth it 1"], ["nth_back it 1", "nth it 9"],
                       ["next_back it", "nth_back it 9"], ["next it", "next_back it", "nth_back it 1"], ["next_back it", "nth it 9"]):
-            for fin in ("drop it", "forget it", "count it"):
+            for fin in ("drop it", "forget it", "count it", "last it"):
                 seqs.append(["drain %s %s %s it" % (r, b1, b2)] + steps + ["size_hint it", "len it", fin, "push %s 77" % r])
         for fill in ("it[]", "it[7]", "it[7,8]", "it[7,8,9,10,11,12]"):
             for steps in ([], ["next it"], ["next_back it", "next it"], ["nth_back it 1"]):
-                seqs.append(["splice %s %s %s %s it" % (r, b1, b2, fill)] + steps + ["size_hint it", "count it" if steps == ["next it"] else "drop it", "push %s 77" % r])
+                seqs.append(["splice %s %s %s %s it" % (r, b1, b2, fill)] + steps + ["size_hint it", "count it" if steps == ["next it"] else ("last it" if steps == ["nth_back it 1"] else "drop it"), "push %s 77" % r])
         # a Splice that is leaked after stepping, also with a replacement iterator that is not fused
         for fill in ("it[7,8]", "it[N,7,8,9]", "it[7,N,8,9]"):
             for steps in ([], ["next it"], ["next_back it"], ["next it", "next it"], ["next_back it", "next_back it", "next it"]):
                 seqs.append(["splice %s %s %s %s it" % (r, b1, b2, fill)] + steps + ["forget it", "push %s 77" % r])
     for p in ("mod2=0", "mod2=1", "seqTTTTTTTT", "seq", "seqFTFTFT"):
         for steps in ([], ["next it"], ["next it", "next it", "next it", "next it", "next it"], ["nth it 1"]):
-            for fin in ("drop it", "forget it", "count it"):
+            for fin in ("drop it", "forget it", "count it", "last it"):
                 seqs.append(["drain_filter %s %s it" % (r, p)] + steps + ["size_hint it", fin, "push %s 77" % r])
     for steps in ([], ["next it"], ["next_back it"], ["next it", "next_back it", "next it", "next_back it", "next it", "next it"],
                   ["nth it 1", "nth_back it 0"], ["nth it 9"], ["next it", "nth_back it 7"], ["next it", "nth_back it 1"],
                   ["next_back it", "nth_back it 1", "nth_back it 9"]):
-        for fin in (["drop it"], ["forget it"], ["count it"], ["clone_iter it it2", "next it2", "drop it", "as_slice it2", "next_back it2", "drop it2"],
+        for fin in (["drop it"], ["forget it"], ["count it"], ["last it"], ["clone_iter it it2", "next it2", "drop it", "as_slice it2", "next_back it2", "drop it2"],
                     ["clone_iter it it2", "drop it2", "next it"]):
             seqs.append(["into_iter %s it" % r] + steps + ["size_hint it", "len it", "as_slice it", "iter_views it"] + fin)
     return seqs
@@ -199,7 +199,7 @@ def random_case(rng, name, cls, mode, nops, directives=(), hostile=False):
                 it2 = fresh("i"); ops.append("clone_iter %s %s" % (it, it2)); its.append((it2, "ii", None))
             else:
                 fin = "forget " if rng.chance(1, 5) else "drop "
-                ops.append(("count " if fin == "drop " and len(ops) % 5 == 2 else fin) + it)
+                ops.append(("count " if fin == "drop " and len(ops) % 5 == 2 else ("last " if fin == "drop " and len(ops) % 5 == 4 else fin)) + it)
                 its.remove((it, kind, src))
                 if src: lent.discard(src)
             continue
